@@ -73,7 +73,7 @@ def build_problem(case):
     mode = wl.choose(rng, ['bottom', 'middle', 'top', 'flat', 'bottom_only'])
     if case['kind'] == 'asm':
         P, feats = wl.single_assembly(
-            rng, max_rings=4, length=0.5,
+            rng, coolant_pool=True, max_rings=4, length=0.5,
             gap=wl.choose(rng, ['none', 'flow', 'no_flow', 'duct_average']),
             vel=wl.loguniform(rng, 0.1, 5.0), lf=(rng.random() < 0.08),
             regions=(rng.random() < 0.5))
